@@ -53,9 +53,9 @@ def shift(norm, tagmap):
     return walk(norm)
 
 
-def model_source(text, uri, opts, base=0, media_type=MEDIA_TYPE):
+def model_source(text, uri, opts, base=0, media_type=MEDIA_TYPE, first=False):
     """(expected envelopes with ids as ["D", base + i], number of draws the source costs, accepted?)."""
-    pr = engine.ALONE.parse(text, None, "ast", False, "text")
+    pr = engine.ALONE.parse(text, None, "ast", first, "text")
     if pr["kind"] == "doc":
         out = []
         a = len(pr["draws"])
@@ -131,6 +131,20 @@ def canon_id(v):
     return engine.canon(v)
 
 
+def enum_sources(src_obj):
+    """iter(SourceEvents.enum()); an implementation that fails already when the enumeration is requested is
+    presented as an iterator whose first item raises that exception and which is exhausted afterwards."""
+    try:
+        return iter(src_obj.enum())
+    except (SimCancelled, SimKilled):
+        raise
+    except Exception as e:  # noqa: BLE001
+        def failing(exc=e):
+            raise exc
+            yield  # pragma: no cover
+        return failing()
+
+
 def run_stream_zip(ts, op):
     """ONE GherkinEvents instance, the generators of several sources created up front and advanced in a
     seeded interleaved order (a consumer that zips / round-robins the per-source generators)."""
@@ -139,7 +153,7 @@ def run_stream_zip(ts, op):
     ge = ts.streams[op["s"]]
     paths = list(op["paths"])
     order = list(op["consumer"].get("order") or [])
-    it = iter(SourceEvents(paths).enum())
+    it = enum_sources(SourceEvents(paths))
     d_op = len(ctx.draws)
     sources, gens = [], []
     for path in paths:
@@ -221,12 +235,12 @@ def run_stream(ts, op):
     if op.get("reenum"):
         # the same SourceEvents object enumerated once before (a first pass that is abandoned after one event)
         try:
-            next(iter(src_obj.enum()), None)
+            next(enum_sources(src_obj), None)
         except (SimCancelled, SimKilled):
             raise
         except Exception:  # noqa: BLE001 - an unreadable first path: the abandoned pass just ends there
             pass
-    it = iter(src_obj.enum())
+    it = enum_sources(src_obj)
     d_op = len(ctx.draws)
     sources, taken, stop = [], 0, False
     for pi, path in enumerate(paths):
